@@ -16,8 +16,8 @@ src/coap_resource.c).  Core Lean only.
   observe registration / cancellation, notification, start-up; the Observe counter arithmetic incl. the
   rounding `((n + f) / f) * f - 1` and the 24-bit mask.
 
-Modelled code = the tree AFTER the two `fix:` commits (dyn file opened "r"; counter entry removed after the
-dyn entry).  The pinned `coap_op_dyn_resource_added` (mode "a") is kept as `dynAddedPinned` for the witness.
+Modelled code = the tree AFTER the three `fix:` commits (dyn file opened "r"; counter entry removed after the
+dyn entry; empty resource name neither written nor read).  The pinned `coap_op_dyn_resource_added` (mode "a") is kept as `dynAddedPinned` for the witness.
 
 Assumptions made explicit by the model: stdio calls do not fail for lack of space / permissions (only
 `fopen "r"` of a missing file and reads at end of file fail); the three file names and their `.tmp` siblings
@@ -138,6 +138,13 @@ def minusOne : Nat := 2^64 - 1
 def rdN (n : Nat) (bs : Bytes) : Option (Bytes × Bytes) :=
   if n = 0 ∨ bs.length < n then none else some (bs.take n, bs.drop n)
 
+/-- `size == 0 || fread(buf, size, 1, fp) == 1`: a zero-length field is not read at all (dyn record name after fix a16f06e:
+the root resource has an empty name) -/
+def rdN0 (n : Nat) (bs : Bytes) : Option (Bytes × Bytes) := if n = 0 then some ([], bs) else rdN n bs
+
+/-- the sizes of the stdio calls made for a field that is skipped when empty -/
+def nz (n : Nat) : List Nat := if n = 0 then [] else [n]
+
 /-- the C test `size < 0 || size > 0x10000` on an `ssize_t` read as 8 LE bytes -/
 def badLen (n : Nat) : Bool := n ≥ 2^63 || n > maxLen
 
@@ -150,9 +157,10 @@ structure DynRec where
 def encDyn (r : DynRec) : Bytes :=
   le szProto r.proto ++ le szLen r.name.length ++ r.name ++ le szLen r.pkt.length ++ r.pkt
 
-/-- the five `fwrite`s of `coap_op_dyn_resource_write` -/
+/-- the `fwrite`s of `coap_op_dyn_resource_write` (an empty name is not written) -/
 def dynWrites (r : DynRec) : List Bytes :=
-  [le szProto r.proto, le szLen r.name.length, r.name, le szLen r.pkt.length, r.pkt]
+  [le szProto r.proto, le szLen r.name.length] ++ (if r.name.length = 0 then [] else [r.name]) ++
+  [le szLen r.pkt.length, r.pkt]
 
 /-- `coap_op_dyn_resource_read`: the sizes of the `fread`s it issues, and its result -/
 def dynRead (bs : Bytes) : List Nat × Option (DynRec × Bytes) :=
@@ -163,16 +171,16 @@ def dynRead (bs : Bytes) : List Nat × Option (DynRec × Bytes) :=
     | none => ([szProto, szLen], none)
     | some (l1, b2) =>
       if badLen (unle l1) then ([szProto, szLen], none) else
-      match rdN (unle l1) b2 with
-      | none => ([szProto, szLen, unle l1], none)
+      match rdN0 (unle l1) b2 with
+      | none => ([szProto, szLen] ++ nz (unle l1), none)
       | some (nm, b3) =>
         match rdN szLen b3 with
-        | none => ([szProto, szLen, unle l1, szLen], none)
+        | none => ([szProto, szLen] ++ nz (unle l1) ++ [szLen], none)
         | some (l2, b4) =>
-          if badLen (unle l2) then ([szProto, szLen, unle l1, szLen], none) else
+          if badLen (unle l2) then ([szProto, szLen] ++ nz (unle l1) ++ [szLen], none) else
           match rdN (unle l2) b4 with
-          | none => ([szProto, szLen, unle l1, szLen, unle l2], none)
-          | some (pk, b5) => ([szProto, szLen, unle l1, szLen, unle l2], some (⟨unle p, nm, pk⟩, b5))
+          | none => ([szProto, szLen] ++ nz (unle l1) ++ [szLen, unle l2], none)
+          | some (pk, b5) => ([szProto, szLen] ++ nz (unle l1) ++ [szLen, unle l2], some (⟨unle p, nm, pk⟩, b5))
 
 structure ObsRec where
   key : Nat            -- the coap_subscription_t pointer of the writing process
